@@ -175,7 +175,11 @@ func (c *cmp) eq(field string, exp, obs any) bool {
 	if str(exp) == str(obs) {
 		return true
 	}
-	c.res.Violation("rpc-mismatch:"+c.method+"."+field+":"+c.kind, c.e.label, c.witness(field, exp, obs))
+	prefix := "rpc-mismatch:"
+	if strings.HasPrefix(c.method, "indexer.") {
+		prefix = "indexer-mismatch:"
+	}
+	c.res.Violation(prefix+c.method+"."+field+":"+c.kind, c.e.label, c.witness(field, exp, obs))
 	return false
 }
 
